@@ -478,6 +478,11 @@ def run_scenario(params: dict, tier: str) -> dict:
 
 
 def replay(params: dict, choices: list, tier: str = 'quick') -> dict:
+    if params.get('kind') == 'dev':
+        hist = tuple(_t(e) for e in params['hist'])
+        out = run_deviation(hist, Chooser(choices), burst=params.get('burst', 2), stall=params.get('stall', False),
+                            srvstall=params.get('srvstall', False))
+        return {'violations': [str(v) for v in out['violations']], 'trace': out['trace']}
     rig = Rig()
     log = []
     try:
